@@ -40,6 +40,10 @@ def build(spec):
     el, feed, status, call = cases_mod.build(spec["seed"], PROPERTY, i, o)
     if "unit" not in call["aggregates"]:
         call["aggregates"].append("unit")
+    if call["pi_method"] == "bootstrap":
+        call["model_parameters"]["agg_model_hard_threshold"] = bool(i % 2)
+        call["model_parameters"]["T"] = [10, 5000, 200][i % 3]
+        call["model_parameters"]["national_summary_correlation"] = bool((i // 2) % 2)
     if call["pi_method"] == "bootstrap" and "postal_code" not in call["aggregates"]:
         call["aggregates"].insert(0, "postal_code")
     if call["pi_method"] == "bootstrap" and el.district and "district" not in call["aggregates"]:
@@ -82,6 +86,11 @@ def run_digest(el, feed, call, client=None, want_summary=False):
                 ns = cl.get_national_summary_votes_estimates(None, 3, call["prediction_intervals"])
                 d["nat_sum_data"] = harness.frame_digest(ns)
                 d["_nat_sum_values"] = json.dumps(gen.jsonable(ns.iloc[0].to_dict()), sort_keys=True)
+                # the same request once more on the same client: equal arguments, equal table
+                ns2 = cl.get_national_summary_votes_estimates(None, 3, call["prediction_intervals"])
+                d["nat_sum_data_repeated"] = harness.frame_digest(ns2)
+                d["_nat_sum_repeat_equal"] = "equal" if d["nat_sum_data_repeated"] == d["nat_sum_data"] else (
+                    "DIFFERENT: " + json.dumps(gen.jsonable(ns2.iloc[0].to_dict()), sort_keys=True))
             except Exception as e:  # noqa: BLE001
                 d["nat_sum_data"] = f"raised:{type(e).__name__}"
         return d, None, cl
@@ -118,6 +127,9 @@ def run_case(spec, inputs=None):
         return out
     out["counters"]["cases_completed"] = 1
     out["counters"][f"cases_{est}"] = 1
+    if d1.get("_nat_sum_repeat_equal", "equal") != "equal":
+        V("national-summary-repeated-request", ["nat_sum_data"], extra=dict(first=d1.get("_nat_sum_values"),
+                                                                             second=d1.get("_nat_sum_repeat_equal")))
     hist = ["fresh-client"]
     d2, exc, _ = run_digest(el, feed, call, want_summary=True)
     if exc is not None or diff_tables(d1, d2):
@@ -150,7 +162,7 @@ def run_case(spec, inputs=None):
         for rep_ in range(2):
             rs, es = harness.run_estimates_shared(el, feed, call, cm.ModelClient(), objs)
             ds.append(None if es is not None else {k: v for k, v in harness.results_digest(rs).items()})
-    d1_tables = {k: v for k, v in d1.items() if k not in ("nat_sum_data", "_nat_sum_values")}
+    d1_tables = {k: v for k, v in d1.items() if not (k.startswith("nat_sum") or k.startswith("_"))}
     if ds[0] is None or ds[1] is None or diff_tables(d1_tables, ds[0]) or diff_tables(d1_tables, ds[1]):
         now = (gen.dumps(objs["model_parameters"]), gen.dumps(objs["estimands"]), gen.dumps(objs["aggregates"]),
                gen.dumps(objs["prediction_intervals"]), gen.dumps(objs["features"]), gen.dumps(objs["fixed_effects"]),
